@@ -1,15 +1,20 @@
 """C07 — script verification is total, contained and side-effect free on any input.
 
-Real code: VerifyScript / EvalScript of the working tree on ARBITRARY byte strings.  Observables:
-  * the exception family: must be none or `validation`, and must equal the model's
-    (`c07.verify` / `c07.eval` of btcmodel = Model.ScriptEval, in which every other Python exception is an explicit
-    outcome and is proved dead for in-range indices and admissible flag sets — Props/C07.lean);
-  * `txTo.serialize()`, both scripts and (EvalScript) nothing but the caller's stack list change: suffix `!mutated`;
-  * the state captured in a raised EvalScriptError (`e.stack`, `e.altstack`, `e.nOpCount`; None = empty / 0) is
-    printed as `{stack|altstack|nOpCount}` and must EQUAL the model's `Captured` (the term the limit theorems of
-    Props/C07.lean bound); a VerifyScriptError is `{verify}`;
-  * independently of the model, that state respects the interpreter's limits
-    (|stack|+|altstack| <= 1003, nOpCount <= 221, elements <= max(520, initial)): suffix `!limits`.
+Real code: VerifyScript / EvalScript of the working tree on ARBITRARY byte strings.  Compared is exactly what the
+statement constrains (audit 3, A1):
+  * the outcome FAMILY of the implementation: returns normally, or an exception of the validation-error family
+    (which member and which message is free), or anything else = the property is violated (unless a known finding);
+  * `txTo` (snapshot of its field values), both scripts and (EvalScript) nothing but the caller's stack list change:
+    suffix `!mutated`;
+  * the state captured in a raised EvalScriptError (`e.stack`, `e.altstack`, `e.nOpCount` of PYTHON's exception) is
+    within the interpreter's limits (|stack|+|altstack| <= 1003, nOpCount <= 221, elements <= max(520, initial)):
+    suffix `!limits`;
+  * inside C06's domain (existing input of a transaction in wire range, admissible flag set, strict signature
+    operands) also the accept / reject verdict of the model (`c07.verify` / `c07.eval` of btcmodel = Model.ScriptEval).
+The exact captured state `{stack|altstack|nOpCount}`, the `{verify}` marker and the final stack are printed on both
+sides as a DIAGNOSTIC and are not compared: a rewrite that checks bounds before popping an operand captures another
+stack, with the same verdict and within the same limits.  The model's own exception outcomes (it mirrors the library,
+every Python exception explicit) serve to recognise the known findings.
 Known findings (not repaired): D6 flags with CLEANSTACK but without P2SH -> AssertionError; D7 inIdx < -|vin| (and
 SIGHASH_SINGLE with inIdx < -|vout|) -> IndexError.  They are generated on purpose and recognised by `signature()`.
 D21 (known finding): a transaction whose fields are outside the wire range — nVersion / nValue of an IMMUTABLE object
@@ -30,7 +35,7 @@ txTo, indices {0, last, |vin|, |vin|+7, -1, -|vin|, -|vin|-1, -5}, all 16 flag s
 """
 from ..framework import Prop, mk, ensure_repo_on_path, Case, exc_family
 from .. import txfmt
-from .c06 import C06 as _C06, ScriptGen, push, pushnum, parse_ops, stack_arg, parse_stack_arg, ADMISSIBLE, ALL_MASKS
+from .c06 import C06, C06 as _C06, ScriptGen, push, pushnum, parse_ops, stack_arg, parse_stack_arg, ADMISSIBLE, ALL_MASKS
 
 
 class C07(Prop, ScriptGen):
@@ -56,8 +61,8 @@ class C07(Prop, ScriptGen):
                    'error_state_limits_real: none (any transaction, any int index, any flag set)',
                    'known findings D6 / D7 / D21 are recognised only when the model (which mirrors Python) gives the same '
                    'answer as the implementation, under the conditions of only_known_findings_real / raises_real_iff',
-                   'the state compared in T2 is the one the limit theorems bound: `{stack|altstack|nOpCount}` of the '
-                   'driver is Model.ScriptEval.Captured']
+                   'the limit clause is checked on PYTHON\'s captured state directly (and proved of the model\'s); the exact '
+                   'captured state is printed on both sides as a diagnostic, not compared (audit 3, A1)']
     rule = ('random byte strings 0..10001 as scriptSig/scriptPubKey (uniform + opcode-alphabet), every truncation point '
             'of all-push-kind programs, mutants of signature/multisig programs, P2SH shapes with garbage redeem scripts; '
             'x 16 flag sets x indices {0,last,|vin|,|vin|+7,-1,-|vin|,-|vin|-1,-5} x mutable/immutable tx; OPERAND matrix: '
@@ -400,26 +405,58 @@ class C07(Prop, ScriptGen):
             return self.observe(g, txo, [sc], init_max, max(0, n0 - 1000))
         raise ValueError(c['op'])
 
+    @staticmethod
+    def fam(x):
+        """the family the statement speaks about: returns normally / validation-error family / anything else"""
+        x = x.split('!')[0]
+        if x.startswith('ok'):
+            return 'ok'
+        if x.startswith('err:validation'):
+            return 'validation'
+        return 'escape'
+
+    def verdict_domain(self, c1):
+        """where the accept / reject verdict is fixed by a statement (C06's): an existing input of a transaction in
+        wire range under an admissible flag set, operands in the strict signature domain.  Elsewhere C07 demands
+        containment only."""
+        a = c1['args']
+        t = txfmt.parse_tx(a[3])
+        mask, idx = int(a[2]), int(a[4])
+        return (self.fields_wf(t) and 0 <= idx < len(t['vin']) and (not mask & 4 or mask & 1)
+                and not (c1.get('tag') or '').startswith('opnd-'))
+
     def agree(self, c, io, mo):
+        """Compared is what the statement constrains (audit 3, A1):
+          * the implementation returns normally or raises from the validation-error family (which member — Eval- or
+            VerifyScriptError — and what message is not constrained), the transaction and the scripts are unchanged
+            (`!mutated`), the state captured in a raised EvalScriptError is within the limits (`!limits`: evaluated on
+            Python's own e.stack / e.altstack / e.nOpCount) — the exact captured state and the final stack are printed
+            for diagnosis only;
+          * inside C06's domain (`verdict_domain`) additionally the same accept / reject verdict as the model.
+        If the model itself answers with an escaping exception (it mirrors the known findings) and the implementation is
+        contained, the statement holds of the implementation: no divergence."""
         ios, mos = io.split(' ;; '), mo.split(' ;; ')
         if len(ios) != len(mos):
             return False
-        for i1, m1 in zip(ios, mos):
+        a = c['args']
+        for k, (i1, m1) in enumerate(zip(ios, mos)):
             if ' ~ ' not in m1:
                 return False
             m, r = m1.split(' ~ ')
-            contained = i1.startswith('ok') or (i1.startswith('err:validation{') and i1.endswith('}'))
-            if (c.get('tag') or '').startswith('opnd-') and i1 != m:
-                # OPERAND matrix: C07 is about containment, the strict-DER / SEC1 domain restriction belongs to C06's
-                # equivalence.  CECKey.verify re-encodes what d2i_ECDSA_SIG accepted, so OpenSSL tolerates encodings the
-                # strict model rejects (e.g. a trailing byte after the DER body): there the library may ACCEPT where the
-                # model fails with a ValidationError.  Nothing else may differ: both outcomes contained, and never a
-                # rejection by the library of what the model accepts.
-                m_contained = m.startswith('ok') or m.startswith('err:validation{')
-                if contained and m_contained and i1.startswith('ok') and not m.startswith('ok') and r in ('-', m.split('{')[0]):
-                    continue
+            if i1 == 'ok:obs':
+                continue
+            if self.fam(i1) == 'escape' or '!' in i1:
                 return False
-            if not (i1 == m and contained and (r == '-' or r == m.split('{')[0])):
+            if r != '-' and C06.verdict(r) != C06.verdict(m.split('{')[0]):
+                return False                                   # model vs reference (both ours): a defect of the model
+            if self.fam(m) == 'escape':
+                continue
+            if c['op'] == 'c07.seq':
+                st_ = a[7 * k:7 * k + 7]
+                one = Case(op='c07.verify' if st_[0] == 'v' else 'c07.eval', args=st_[1:6] + ['0'], tag=c.get('tag', ''))
+            else:
+                one = c
+            if self.verdict_domain(one) and self.fam(i1) != self.fam(m):
                 return False
         return True
 
@@ -479,16 +516,23 @@ class C07(Prop, ScriptGen):
         #      wrap around vin (or, SIGHASH_SINGLE, around vout);
         #  D21: fields outside the wire range: struct.error (serialize) / ValueError (from_tx) out of RawSignatureHash.
         # An IndexError / AssertionError / struct.error that the model does not reproduce is a VIOLATION.
-        if io == m == 'err:py:AssertionError' and c['op'] == 'c07.verify' and (mask & 4) and not (mask & 1):
+        esc_i, esc_m = self.fam(io) == 'escape', self.fam(m) == 'escape'
+        # D6: the assert about the flag set; the model either mirrors it or gives the conforming (contained) answer
+        if io.startswith('err:py:AssertionError') and c['op'] == 'c07.verify' and (mask & 4) and not (mask & 1) and \
+                (m.startswith('err:py:AssertionError') or not esc_m):
             return 'D6-cleanstack-without-p2sh'
-        if io == m == 'err:py:IndexError' and wf and idx < 0 and (idx < -len(t['vin']) or idx < -len(t['vout'])):
+        # D7: an exception escaping out of the signature hash at an index that does not wrap — recognised only where the
+        # model (in which, for a transaction in wire range, only RawSignatureHash can raise: only_known_findings_real)
+        # escapes too; the Python class of the escaping exception is not compared
+        if esc_i and esc_m and '!' not in io and wf and idx < 0 and (idx < -len(t['vin']) or idx < -len(t['vout'])):
             return 'D7-negative-inidx'
-        if io == m and io in ('err:py:error', 'err:valueerr') and not wf:
+        # D21: fields outside the wire range: an exception out of serialisation / from_tx, in the model too
+        if esc_i and esc_m and '!' not in io and not wf:
             return 'D21-out-of-range-tx-fields-struct-error'
         scripts = [bytes.fromhex(a[0])] + ([bytes.fromhex(a[1])] if c['op'] == 'c07.verify' else [])
         ops = [o for s in scripts for (o, _, _) in parse_ops(s)]
         if sum(1 for o in ops if o <= 0x4e) >= 900 and (io.endswith('!limits') or (io.startswith('ok') and m.startswith('err:validation'))):
             return 'D5-push-skips-stack-limit'
-        if any(o in (0xa5, 0xac, 0xae) for o in ops) and io != m and not io.startswith('err:py') and '!' not in io:
+        if any(o in (0xa5, 0xac, 0xae) for o in ops) and self.fam(io) != self.fam(m) and not io.startswith('err:py') and '!' not in io:
             return 'D4-false-result-pushed-as-00'
         return None
